@@ -499,6 +499,69 @@ fn c14(tier: &str) -> i32 {
     c06::run(&mut rep, lab::Bk::Memory, tier != "quick");
     // recovery after a crash at every storage step (C12's rollback history), monitored
     crashx::check_c14_recovery(&mut rep);
+    // opening a database with a key in hand, against every state of the file that makes the open fail (or succeed): whatever
+    // comes back, as Display and as Debug, is scanned for the key in its encodings (seeded change C14-9: the PRAGMA text that
+    // carries the key quoted in the error of an open that hits a locked database)
+    {
+        use mdk_sqlite_storage::{EncryptionConfig, MdkSqliteStorage};
+        let key: [u8; 32] = core::array::from_fn(|i| 0x5a ^ (i as u8).wrapping_mul(7));
+        let other: [u8; 32] = core::array::from_fn(|i| 0xa5 ^ (i as u8).wrapping_mul(11));
+        let secrets = vec![("database-key".to_string(), key.to_vec())];
+        let dir = lab::scratch_root().join("c14-open");
+        let _ = std::fs::remove_dir_all(&dir);
+        let _ = std::fs::create_dir_all(&dir);
+        let enc_db = dir.join("enc.db");
+        let made = MdkSqliteStorage::new_with_key(&enc_db, EncryptionConfig::new(key)).is_ok();
+        let other_db = dir.join("other.db");
+        let _ = MdkSqliteStorage::new_with_key(&other_db, EncryptionConfig::new(other));
+        let plain_db = dir.join("plain.db");
+        let _ = MdkSqliteStorage::new_unencrypted(&plain_db);
+        let garbage = dir.join("garbage.db");
+        let _ = std::fs::write(&garbage, vec![0x42u8; 8192]);
+        let short = dir.join("short.db");
+        let _ = std::fs::write(&short, b"SQLite format 3\0");
+        let a_dir = dir.join("a-directory.db");
+        let _ = std::fs::create_dir_all(&a_dir);
+        let missing_parent = dir.join("no-such-dir").join("x.db");
+        if !made {
+            rep.machinery_errors.push("c14: cannot create the encrypted database".into());
+        }
+        let mut cases: Vec<(&str, std::path::PathBuf, Option<rusqlite::Connection>)> = vec![
+            ("right-key", enc_db.clone(), None),
+            ("encrypted-under-another-key", other_db.clone(), None),
+            ("plaintext-database", plain_db.clone(), None),
+            ("garbage-file", garbage.clone(), None),
+            ("header-only-file", short.clone(), None),
+            ("path-is-a-directory", a_dir.clone(), None),
+            ("parent-directory-missing", missing_parent.clone(), None),
+        ];
+        // the right key, while another connection holds the write lock / the exclusive lock
+        for (label, begin) in [("right-key-database-write-locked", "BEGIN IMMEDIATE"), ("right-key-database-exclusively-locked", "BEGIN EXCLUSIVE")] {
+            let p = dir.join(format!("{label}.db"));
+            let _ = std::fs::copy(&enc_db, &p);
+            if let Ok(conn) = rusqlite::Connection::open(&p) {
+                let ok = conn.execute_batch(&format!("PRAGMA key = \"x'{}'\";", hex::encode(key))).is_ok() && conn.query_row("SELECT count(*) FROM sqlite_master", [], |r| r.get::<_, i64>(0)).is_ok() && conn.execute_batch(begin).is_ok();
+                if ok {
+                    cases.push((label, p, Some(conn)));
+                } else {
+                    rep.machinery_errors.push(format!("c14: cannot lock the database for {label}"));
+                }
+            }
+        }
+        for (label, path, _holder) in &cases {
+            let r = MdkSqliteStorage::new_with_key(path, EncryptionConfig::new(key));
+            rep.evaluations += 1;
+            rep.case(&format!("open-with-key|{label}|{}", if r.is_ok() { "ok" } else { "err" }));
+            if let Err(e) = r {
+                let recs = vec![format!("{e}"), format!("{e:?}")];
+                for l in logcap::scan(&recs, &secrets) {
+                    rep.finding(format!("C14|{l}|open-with-key|{label}"), format!("the error of opening a database ({label}) with a key carries that key: {l}"), serde_json::json!({"case": label}));
+                }
+            }
+        }
+        drop(cases);
+        let _ = std::fs::remove_dir_all(&dir);
+    }
     // Debug of the types the statement names
     {
         let enc = mdk_sqlite_storage::EncryptionConfig::new([0xEE; 32]);
